@@ -121,17 +121,22 @@ func chainViolation(sp crashSpace, chain []epoch, class, msg string) *explore.Vi
 
 type c04Space struct {
 	crashSpace
-	D2, D3 int
+	D2, D3  int
+	Letters []explore.Op // first-epoch alphabet (nil: the C03 alphabet)
 }
 
 func runC04(c *explore.Ctx) {
 	var spaces []c04Space
 	if c.Thorough() {
-		spaces = []c04Space{{crashSpace{"T", "BIGC", 3}, 3, 1}, {crashSpace{"T3", "BIGC", 3}, 3, 1}, {crashSpace{"S2", "ROLL", 3}, 2, 1}, {crashSpace{"E", "ROLL1", 3}, 2, 1}, {crashSpace{"CH", "ROLL", 2}, 2, 0}, {crashSpace{"S2", "ROLL", 1}, 4, 0}, {crashSpace{"S3", "ROLL", 1}, 3, 0}}
+		spaces = []c04Space{{crashSpace{"T", "BIGC", 3}, 3, 1, nil}, {crashSpace{"T3", "BIGC", 3}, 3, 1, nil}, {crashSpace{"S2", "ROLL", 3}, 2, 1, nil}, {crashSpace{"E", "ROLL1", 3}, 2, 1, nil}, {crashSpace{"CH", "ROLL", 2}, 2, 0, nil}, {crashSpace{"S2", "ROLL", 1}, 4, 0, nil}, {crashSpace{"S3", "ROLL", 1}, 3, 0, nil},
+			{crashSpace{"SM", "ROLLM", 4}, 2, 0, []explore.Op{{Kind: explore.Put, Key: "a"}, {Kind: explore.Delete, Key: "a"}, {Kind: explore.Put, Key: "b"}, {Kind: explore.Compact}}}}
 	} else {
-		spaces = []c04Space{{crashSpace{"T", "BIGC", 2}, 2, 0}, {crashSpace{"T3", "BIGC", 2}, 2, 0}, {crashSpace{"S2", "ROLL", 2}, 2, 0}, {crashSpace{"E", "ROLL1", 2}, 1, 0},
+		spaces = []c04Space{{crashSpace{"T", "BIGC", 2}, 2, 0, nil}, {crashSpace{"T3", "BIGC", 2}, 2, 0, nil}, {crashSpace{"S2", "ROLL", 2}, 2, 0, nil}, {crashSpace{"E", "ROLL1", 2}, 1, 0, nil},
 			// few first-epoch images, longer second epochs: a recovered session, a clean restart, more writes, then the crash
-			{crashSpace{"S2", "ROLL", 1}, 3, 0}}
+			{crashSpace{"S2", "ROLL", 1}, 3, 0, nil},
+			// a sealed segment below the compaction minimum holds an old put of a: histories that put and delete a
+			// again, crash, recover (segment metadata rebuilt by the replay) and then compact
+			{crashSpace{"SM", "ROLLM", 3}, 1, 0, []explore.Op{{Kind: explore.Put, Key: "a"}, {Kind: explore.Delete, Key: "a"}, {Kind: explore.Put, Key: "b"}, {Kind: explore.Compact}}}}
 	}
 	for _, sp := range spaces {
 		if c.Expired() || c.NViolations() > 0 {
@@ -143,7 +148,11 @@ func runC04(c *explore.Ctx) {
 		}
 		explore.PinSeed(0)
 		seen := map[string]bool{}
-		l1 := collectImages(c, base, c03Letters(), sp.Depth, nil, seen, false)
+		letters := sp.Letters
+		if letters == nil {
+			letters = c03Letters()
+		}
+		l1 := collectImages(c, base, letters, sp.Depth, nil, seen, false)
 		c.Add("level1_distinct_images", int64(len(l1))/int64(c.NShards)+1)
 		memo := recMemo{}
 		for i, im := range l1 {
